@@ -28,6 +28,7 @@ func init() {
 	core.RegisterMeta("C27", core.Meta{
 		Rule: "enumerated scenario table: server-credential scenarios (trusted, untrusted root, expired / not-yet-valid leaf, expired or missing intermediate, wrong name, SAN/IP names, Config.Time shifted both ways, flipped certificate signature, substituted key, flipped ServerKeyExchange/CertificateVerify signature, wire flips of ServerKeyExchange / Certificate, InsecureSkipVerify) " +
 			"x TLS1.0-1.3 x {RSA, ECDHE_RSA, ECDHE_ECDSA, DHE_RSA, TLS1.3} x key kinds; client-auth table: 5 ClientAuth modes x client credentials (none, trusted, untrusted, expired, wrong EKU, flipped certificate signature, substituted key, flipped CertificateVerify, wire flip) x versions x client key kinds; " +
+			"resumption family: connection 1 (config X, possibly InsecureSkipVerify, server trusted/untrusted/expired/misnamed/incomplete chain) fills a shared ClientSessionCache, connection 2 (Y = X.Clone() with verification on, optionally Config.Time past NotAfter or another ServerName) must not complete against a server that does not verify for Y, resumed or not; " +
 			"peers zcrypto<->zcrypto, lying/honest Go server against the zcrypto client, lying/honest Go client against the zcrypto server. non-trivial = a row with an asserted expectation whose run reached a decision (verifying side returned); distinct by row description",
 		MinNontrivial:         1200,
 		MinNontrivialThorough: 4000,
